@@ -100,6 +100,23 @@ def _axioms():
     i1 = next(i for i, x in enumerate(ax) if isinstance(x, str) and x == '$RING$'); i2 = next(i for i, x in enumerate(ax) if isinstance(x, str) and x == '$ENTRIES$')
     return {'entries': ax[:i1] + ax[i2 + 1:], 'ring': ax[i1 + 1:i2]}
 
+COLOF = z3.Function('COLOF', Mat, IntS, Mat)       # the i-th column as an (n, 1) matrix
+
+def colof_axioms():
+    M = z3.Const('M!c', Mat); i, r = z3.Ints('i!c r!c')
+    return [ForAll([M, i], And(rows(COLOF(M, i)) == rows(M), cols(COLOF(M, i)) == 1), patterns=[COLOF(M, i)]),
+            ForAll([M, i, r], at(COLOF(M, i), r, 0) == at(M, r, i), patterns=[at(COLOF(M, i), r, 0)]),
+            ForAll([M], Implies(cols(M) == 1, COLOF(M, 0) == M), patterns=[COLOF(M, 0)])]
+
+def getitem_hook(I, b, ix):
+    """M[:, [i]] keeps the matrix-level identity of the column"""
+    if not is_mat(I, b) or not isinstance(ix, tuple) or len(ix) != 2: return None
+    r0, c0 = ix
+    if isinstance(r0, slice) and r0 == slice(None) and isinstance(c0, list) and len(c0) == 1:
+        N.norm_index(I, c0[0], I.A(b).shape[1], 'column index')
+        return mk(I, COLOF(I.A(b).tag[1], tz(c0[0])), (I.A(b).shape[0], 1))
+    return None
+
 def mat_of(I, a):
     """Mat term of a 2-D real array value (created on demand for element-defined arrays: a fresh constant with its entries)"""
     A = I.A(a) if isinstance(a, ArrRef) else a
@@ -238,4 +255,5 @@ def install(ext):
         raise Unsupported("np.linalg.norm form")
     np.linalg.norm = norm
     ext['mat_binop'] = binop_hook
+    ext['mat_getitem'] = getitem_hook
     ext['mat_T'] = a_T
